@@ -194,37 +194,69 @@ def gen_spec(rng, profile="full"):
             r = spec["refs"][0]
             r["coords"] = [j for j in coords if cons[j]["props"].get("standard_name") in
                            IMPLIED[r["params"]["grid_mapping_name"]]]
-        if rng.random() < 0.0:
-            # vertical (formula terms) reference owned by a 1-d coordinate (left to example_field(1): see report)
-            own = [j for j in coords if len(cons[j]["axes"]) == 1 and cons[j]["dtype"] != "S" and cons[j]["axes"][0] in span]
+        if rng.random() < 0.12:
+            # vertical (formula terms) reference owned by a 1-d numeric coordinate.  Canonical form = what the reader
+            # makes of a CF file: the owner has standard_name AND computed_standard_name as properties; no grid mapping
+            # lists the owner; at least one term; a term has bounds only where CF can link them (owner has bounds and
+            # the term spans the owner's axis); the datum is one CF can carry.  PROBE keeps the defect classes watched.
+            PROBE = 0.04
+            SN, CSN = "atmosphere_hybrid_height_coordinate", "altitude"
+            clim = {a for c in cons if c.get("climatology") for a in c["axes"]}
+            own = [j for j in coords if len(cons[j]["axes"]) == 1 and cons[j]["dtype"] != "S"
+                   and cons[j]["axes"][0] in span and cons[j]["axes"][0] not in clim]
             if own:
                 o = rng.choice(own)
-                cons[o]["props"]["standard_name"] = "atmosphere_hybrid_height_coordinate"
+                oax = list(cons[o]["axes"])
+                cons[o]["props"]["standard_name"] = SN
+                cons[o]["props"]["computed_standard_name"] = CSN
+                if rng.random() < PROBE:
+                    del cons[o]["props"]["computed_standard_name"]
+                for j in coords:
+                    if j != o and cons[j]["props"].get("standard_name") == SN:
+                        cons[j]["props"]["standard_name"] = "altitude"
                 for r0 in spec["refs"]:
                     r0["coords"] = [j for j in r0["coords"] if j != o]
-                for j in coords:
-                    if j != o and cons[j]["props"].get("standard_name") == "atmosphere_hybrid_height_coordinate":
-                        cons[j]["props"]["standard_name"] = "altitude"
+                if len(spec["refs"]) > 1:
+                    # several grid mappings are written with their coordinate lists: an empty list is not writable
+                    spec["refs"] = [r0 for r0 in spec["refs"] if r0["coords"]]
+                gms = list(spec["refs"])
                 dancs = {}
                 for term in ("a", "b", "orog"):
-                    if rng.random() < 0.8:
-                        pl = pool() or cons[o]["axes"]
-                        ax = cons[o]["axes"] if term != "orog" else rng.sample(pl, min(rng.choice([1, 2]), len(pl)))
-                        cons.append({"type": "danc", "axes": list(ax), "props": gen_props(rng, "danc", 0.3),
-                                     "ncvar": names.draw(VAR_NAMES, 0.4), "dtype": "f8", "mask": False})
+                    if rng.random() < 0.8 or (term == "orog" and not dancs and rng.random() >= PROBE):
+                        if term == "orog":
+                            pl = [a for a in (pool() or oax) if a not in oax] or oax
+                            ax = rng.sample(pl, min(rng.choice([1, 2]), len(pl)))
+                        else:
+                            ax = list(oax)
+                        d = {"type": "danc", "axes": list(ax), "props": gen_props(rng, "danc", 0.3),
+                             "ncvar": names.draw(VAR_NAMES, 0.4), "dtype": "f8" if rng.random() < 0.7 else num(), "mask": False}
+                        linkable = bool(cons[o].get("bounds")) and oax[0] in ax
+                        if rng.random() < (0.35 if linkable else PROBE):
+                            d["bounds"] = gen_bounds(rng, names, d)
+                        cons.append(d)
                         dancs[term] = len(cons) - 1
-                spec["refs"].append({"coords": [o], "ncvar": None,
-                                     "params": {"standard_name": "atmosphere_hybrid_height_coordinate",
-                                                "computed_standard_name": "altitude"},
-                                     "dancs": dancs, "datum": {}})
+                if dancs and rng.random() < PROBE:
+                    dancs["c"] = dancs[rng.choice(sorted(dancs))]      # one variable used by two terms
+                datum = {}
+                if len(gms) == 1:
+                    datum = dict(gms[0]["datum"])
+                elif len(gms) > 1 and rng.random() < 0.4:
+                    uniq = [g0["datum"] for g0 in gms if g0["datum"] and sum(1 for g1 in gms if g1["datum"] == g0["datum"]) == 1]
+                    if uniq:
+                        datum = dict(rng.choice(uniq))
+                if rng.random() < PROBE:
+                    datum = rng.choice([{}, {"earth_radius": 6371229.0}, {"horizontal_datum_name": "WGS84"}])
+                spec["refs"].append({"coords": [o], "ncvar": None, "params": {"standard_name": SN, "computed_standard_name": CSN},
+                                     "dancs": dancs, "datum": datum})
         if rng.random() < 0.02 and nax:
             # probe F01h: a domain ancillary that no coordinate reference uses
             cons.append({"type": "danc", "axes": [rng.randrange(nax)], "props": gen_props(rng, "danc"),
                          "ncvar": names.draw(VAR_NAMES, 0.4), "dtype": "f8", "mask": False})
-    # unlimited: only an axis the data span and that has a coordinate variable can carry the flag in a file
+    # unlimited: a size-1 axis the data do not span is written as a scalar coordinate variable (no netCDF dimension
+    # to carry the flag); a domain axis that no construct spans is a known finding (written with zero records)
     for a in range(nax):
-        if axes[a]["unlimited"] and (kind == "domain" or a not in span or
-                                     not any(c["type"] == "dim" and c["axes"] == [a] for c in cons)):
+        if axes[a]["unlimited"] and ((kind == "field" and a not in span) or
+                                     (kind == "domain" and not any(a in c["axes"] for c in cons) and rng.random() > 0.1)):
             axes[a]["unlimited"] = False
     # cell methods
     with_dim = [a for a in range(nax) if any(c["type"] == "dim" and c["axes"] == [a] for c in cons)]
@@ -366,18 +398,40 @@ def expected_findings(spec, opts):
             if any(c.get("bounds") and not c.get("climatology") and c["axes"] == [a] for c in cons):
                 out.append("where-over-cell-method-taken-as-climatology")
                 break
-    with_dim = {c["axes"][0] for c in cons if c["type"] == "dim"}
-    if any(isinstance(a, int) and a not in with_dim for cm in spec["cms"] for a in cm["axes"]):
-        out.append("cell-method-axis-without-dimension-coordinate-equals")
     if opts.get("fmt") == "NETCDF4_CLASSIC" and "_FillValue" in spec["props"]:
         out.append("netcdf4-classic-fill-value-after-data")
-    if any(c.get("dtype") == "S" and c.get("mask") for c in cons) or ((spec.get("data") or {}).get("dtype") == "S"
-                                                                     and spec["data"].get("mask")):
-        out.append("string-array-wider-than-its-longest-element-equals")
     if any(c.get("nodata") and not c["axes"] for c in cons):
         out.append("construct-without-axes-equals-raises")
     if sum(1 for c in cons if c.get("external") and not c.get("nodata")) >= 2:
         out.append("second-external-variable-not-resolved")
+    for r in spec["refs"]:
+        if "dancs" not in r:
+            continue
+        own = [cons[j] for j in r["coords"] if cons[j]["props"].get("standard_name") == r["params"].get("standard_name")]
+        if len(own) != 1 or len(own[0]["axes"]) != 1 or len(r["coords"]) != 1:
+            out.append("formula-terms:no-unique-owning-coordinate")
+            continue
+        o = own[0]
+        if o["props"].get("computed_standard_name") != r["params"].get("computed_standard_name"):
+            out.append("formula-terms:computed-standard-name-becomes-coordinate-property")
+        if not r["dancs"]:
+            out.append("formula-terms:reference-without-terms-dropped")
+        ds = list(r["dancs"].values())
+        if len(set(ds)) < len(ds):
+            out.append("formula-terms:variable-of-two-terms-read-twice")
+        if any(cons[k].get("bounds") and not (o.get("bounds") and o["axes"][0] in cons[k]["axes"]) for k in ds):
+            out.append("formula-terms:term-bounds-not-linked")
+        n_eq = sum(1 for g0 in gms if g0["datum"] == r["datum"])
+        if not ((not gms and not r["datum"]) or (len(gms) == 1 and n_eq == 1) or
+                (len(gms) > 1 and (not r["datum"] or n_eq == 1))):
+            out.append("formula-terms:vertical-datum-not-carried-by-a-grid-mapping")
+        if any(j in g0["coords"] for g0 in gms for j in r["coords"]):
+            out.append("formula-terms:grid-mapping-lists-the-vertical-coordinate")
+    if len(gms) > 1 and any(not g0["coords"] for g0 in gms):
+        out.append("grid-mapping-without-coordinates-among-several")
+    if spec["kind"] == "domain" and any(ax["unlimited"] and not any(a in c["axes"] for c in cons)
+                                        for a, ax in enumerate(spec["axes"])):
+        out.append("domain-unlimited-axis-without-constructs-read-with-size-zero")
     # size-1 axes that the data do not span
     for a in range(len(spec["axes"])):
         if a in sp:
@@ -395,19 +449,72 @@ def expected_findings(spec, opts):
                 out.append("unspanned-size1-axis:several-scalar-coordinates")
             else:
                 out.append("unspanned-size1-axis:data-gain-a-dimension")
-    if any(c["type"] == "aux" and c["dtype"] == "S" and len(c["axes"]) == 1 and c["axes"][0] not in sp for c in cons):
-        out.append("string-scalar-coordinate")
-    # coordinates whose content is equal share one netCDF variable (the writer's `seen` registry)
-    sig = {}
-    for j, c in enumerate(cons):
-        if c["type"] == "danc":
-            continue
     return out
 
 
 def row_ok(r):
     return (r.get("n_read") == 1 and r.get("eq_fg") is True and r.get("eq_gf") is True and r.get("fp_equal") is True
-            and not r.get("names_lost") and r.get("source_unchanged", True))
+            and not r.get("names_lost") and r.get("source_unchanged", True) and r.get("read_stable", True))
+
+
+def symptoms(r):
+    """What is wrong with a row, component by component."""
+    s = set()
+    for k in ("write_err", "read_err", "equals_err", "crash", "harness_err"):
+        if k in r:
+            s.add(k)
+    if "n_read" in r and r["n_read"] != 1:
+        s.add("n_read")
+    if r.get("eq_fg") is False or r.get("eq_gf") is False:
+        s.add("equals")
+    if r.get("fp_equal") is False:
+        for d in r.get("fp_diff") or []:
+            s.add("fp:" + d)
+    for n in r.get("names_lost") or []:
+        s.add("names:" + n[1])
+    if r.get("source_unchanged") is False:
+        s.add("source")
+    if r.get("read_stable") is False:
+        s.add("read-unstable")
+    return s
+
+
+# The components a known-finding class can affect.  A class that is absent here changes the structure of the
+# field (content hashes, hence every label) and explains any symptom; for the others, a symptom outside the
+# set is a second, unrelated failure of the same case and is reported on its own.
+SIG_SYMPTOMS = {
+    "endian-big-read-back-dtype-not-equal": {"equals"},
+    "construct-without-axes-equals-raises": {"equals", "equals_err"},
+    "grid-mapping-coordinates-not-implied-by-name": {"equals", "fp:refs"},
+    "bounds-dimension-name-shared-by-size": {"names:bdim"},
+    "equal-constructs-share-a-variable": {"names:var", "names:bvar"},
+    "netcdf4-classic-fill-value-after-data": {"write_err"},
+    "unspanned-size1-axis:no-coordinate": {"equals", "fp:axes", "fp:cell_methods"},   # a cell method may name the axis
+}
+
+
+def residual_signature(extra, r):
+    if "write_err" in extra:
+        return "write-raises"
+    if "read_err" in extra:
+        return "read-raises"
+    if "crash" in extra:
+        return "worker-crash"
+    if "n_read" in extra:
+        return "not-exactly-one-construct"
+    fp = sorted(x[3:] for x in extra if x.startswith("fp:"))
+    if fp:
+        return "fingerprint-differs:" + ",".join(fp)
+    if "equals" in extra or "equals_err" in extra:
+        return "equals-false"
+    nm = sorted(x[6:] for x in extra if x.startswith("names:"))
+    if nm:
+        return "netcdf-name-lost:" + ",".join(nm)
+    if "read-unstable" in extra:
+        return "read-construct-changes-when-returned-array-is-overwritten"
+    if "source" in extra:
+        return "source-changed"
+    return "harness-error"
 
 
 def describe(r):
@@ -539,8 +646,7 @@ def oracle(chk, cases, rows, stats):
                          {"input": {k: v for k, v in c.items() if k != "i"}, "expected": val, "observed": got})
         if "crash" in r:
             explained.add(c["i"])
-            sig = "string-scalar-coordinate" if "string-scalar-coordinate" in exp else "worker-crash"
-            chk.fail("property", sig, f"the interpreter died while writing/reading: {r['crash'][:120]}",
+            chk.fail("property", "worker-crash", f"the interpreter died while writing/reading: {r['crash'][:120]}",
                      {"input": c, "expected": "a round trip", "observed": r})
             continue
         if "harness_err" in r and "n_read" not in r:
@@ -565,9 +671,21 @@ def oracle(chk, cases, rows, stats):
             sig = "equals-false"
         elif r.get("names_lost"):
             sig = "netcdf-name-lost:" + ",".join(sorted({n[1] for n in r["names_lost"]}))
+        elif r.get("read_stable") is False:
+            sig = "read-construct-changes-when-returned-array-is-overwritten"
         else:
             sig = "source-changed"
         stats["sig:" + sig] = stats.get("sig:" + sig, 0) + 1
+        if exp and all(e in SIG_SYMPTOMS for e in exp):
+            # the known classes of this case explain only some components: anything else is a second failure
+            allowed = set().union(*(SIG_SYMPTOMS[e] for e in exp))
+            extra = symptoms(r) - allowed
+            if extra:
+                sig2 = residual_signature(extra, r)
+                stats["sig2:" + sig2] = stats.get("sig2:" + sig2, 0) + 1
+                chk.fail("property", sig2, f"second failure of a case of class {exp}: unexplained {sorted(extra)}: {describe(r)}",
+                         {"input": {k: v for k, v in c.items() if k != "i"}, "expected": f"only {sorted(allowed)} may differ",
+                          "observed": {k: v for k, v in r.items() if k not in ("raw", "rskel")}})
         chk.fail("property", sig, f"write/read of a {c.get('fam')} case ({c['options']}): {describe(r)}",
                  {"input": {k: v for k, v in c.items() if k != "i"}, "expected": "exactly one equal construct, equal fingerprint, names kept",
                   "observed": {k: v for k, v in r.items() if k not in ("raw", "rskel")}})
@@ -696,6 +814,12 @@ def correspondence(chk, cases, rows, explained, stats):
     n = 0
     if wl:
         ol = ["(%s, %s)" % (g_opts(c["options"]), g_skel(c["spec"], c["options"])) for c, r in wc]
+        bad0 = lib.coq_bad_indices("C01", REQ, "check_wf", ol, chunk=100)
+        stats["model-guard-cases"] = len(ol)
+        for i in bad0[:10]:
+            c, r = wc[i]
+            chk.fail("correspondence", "model-guard", "an in-fragment case lies outside the guard (wf, dim_unique) of C01_roundtrip_checked",
+                     {"correspondence": "C01.Run.check_wf", "input": {k: v for k, v in c.items() if k != "i"}})
         bad1 = lib.coq_bad_indices("C01", REQ, "check_one", ol, chunk=100)
         stats["model-roundtrip-cases"] = len(ol)
         for i in bad1[:10]:
@@ -754,6 +878,8 @@ def run(chk, model_ok):
             tags.append("cell-methods")
         if sp["refs"]:
             tags.append("coordinate-references")
+        if any("dancs" in r for r in sp["refs"]):
+            tags.append("formula-terms")
         if any(x.get("external") for x in sp["cons"]):
             tags.append("external-measure")
         if set(range(len(sp["axes"]))) - spanned(sp) and sp["kind"] == "field":
